@@ -159,7 +159,7 @@ def replay(o, tree):
     if (o.get("cfg") or {}).get("kind") == "promise-pending":
         return deferred_c.replay_promise_pending(tree)
     if (o.get("cfg") or {}).get("kind") == "poly-scalar":
-        return deferred_c.replay_poly_scalar(o["cfg"], tree)
+        return deferred_c.replay_poly_scalar(o["cfg"], tree, o.get("witness"))
     if (o.get("cfg") or {}).get("kind") == "poly-mul":
         return deferred_c.replay_poly_mul(o["cfg"], o.get("witness") or {}, tree)
     old = os.environ.get("PDPY11_SRC")
